@@ -33,7 +33,7 @@ CLAIM = dict(
     note="Trusted: rustc MIR; null-safe sink list and exception table in rules/nullguard.py and this file; zlib-ng prototype extract "
          "(oracles/zlibng_ref.json). One known difference (inflateUndermine's status) is pinned by the repository's own tests and listed "
          "as a known finding.",
-    technique="null-taint dataflow over extern \"C\" entry points + validation-constant comparison with the reference sources",
+    technique="null-taint and API-integer taint dataflow over extern \"C\" entry points + validation-constant and condition comparison with the reference sources",
 )
 
 NULL_EXCEPTIONS = {
